@@ -5,6 +5,26 @@ HERE = os.path.dirname(os.path.dirname(os.path.abspath(__file__)))
 
 TECH = "deterministic simulation with fault injection"
 CLAIMED = {
+ "C03": dict(
+   level="exploration", design="5/C03, 5a",
+   text="Seeded search over tables built through the byte-level control connection (matches derived from generated frames by random wildcarding, prefix lengths, near-miss perturbation, priority ties, exact entries) and frames injected on ports; the entry whose counters advanced is compared with an independent OF1.0 matcher working on raw bytes. The per-(match, frame) predicate is input-quantified and only sampled.",
+   note="Trusts models/rawframe.py (field extraction, key_matches) and models/of10switch.py as the reading of OF1.0 3.4; canonical matches only; equal-priority ties accept any winner.",
+   technique=TECH + ": refinement of the real switch against an executable OF1.0 reference model, lock-step after every step"),
+ "C04": dict(
+   level="exploration", design="5/C04, 5a",
+   text="Seeded search over FLOW_MOD histories x frames x virtual-clock advances (biased around timeout and sweep instants) with the real ExpireMixin timer under the simulated clock; after every step the wire-level flow-stats view is compared with an executable OF1.0 table model (entries, actions, counters, durations), timeouts as bounds, flow_removed one-to-one with notifying removals, table-sorted invariant.",
+   note="Trusts models/of10switch.py as the reading of OF1.0 4.6; control channel instantaneous in this world; boundary instants accepted either way.",
+   technique=TECH + ": refinement against an executable table model under a virtual clock, history search"),
+ "C12": dict(
+   level="exploration", design="5/C12, 5a",
+   text="Seeded search over frames x action lists (12 standard actions, physical and virtual output ports, via flows and packet-out) x port-mod histories; every emitted (port, bytes) is compared with a reference applier that rewrites raw bytes with its own offset arithmetic and RFC 1071 sums, and port-stats replies with the tally of frames actually received/transmitted.",
+   note="Trusts models/rawframe.py's applier; unspecified cases (L3/L4 rewrite of TCP/UDP fragments, TABLE from odd ports) end the run without verdict; emission order within one FLOOD/ALL not compared.",
+   technique=TECH + ": refinement of emitted frames and counters against a byte-level reference applier, history search"),
+ "C18": dict(
+   level="exploration", design="5/C18, 5a",
+   text="Seeded search over histories of table misses, send-to-controller actions, packet-outs and flow-mods naming buffers (valid, stale, used, bogus ids), set-config, with pools of 0-4 buffers; buffer ids are tracked as opaque tokens: uniqueness, pool bound, full-pool fallback, data length vs limit, total_len, emit-exactly-that-frame-then-free, nothing for unknown ids.",
+   note="Ids are never predicted; whether a slot counts as occupied while its own actions run is accepted either way; fate of the packet of a rejected flow_mod follows the implementation.",
+   technique=TECH + ": history search with an opaque-token buffer model checked after every step"),
  "C13": dict(
    level="exploration", design="5/C13, 5a",
    text="Seeded search over request histories pushed through a simulated TCP byte stream (segmentation, delay, partial recv) into the real switch stack; every reply is decoded by an independent OF1.0 codec and paired by position and xid against a reference model. Sampling, not proof.",
